@@ -107,6 +107,19 @@ MISSED = {
     "C17-l": 'no line began with a non-blank invisible character (U+FEFF ...), none below a comment / blank / section / import line where str() moves it to line 1; added position streams with ten invisible or exotic-blank line starts',
     "C18-k": 'file and directory names never began or ended with a blank; added blank-edged names and roots, neighbour decoys without the blank, and a sweep of every alphabet character at start / inside / end of names as top resource through all entry points',
     "C18-l": "references were only ever written percent-escaped (pathname2url), so no literal '['; added literal and mixed spellings of %include / src / extends references and ordered punctuation pairs inside names ('x[1]y')",
+    # round 7
+    "C02-m": 'the schema generator never GAVE an attribute name starting with an underscore; added attribute names respelled as arbitrary identifiers (leading / trailing underscores, upper / mixed case) and a directed stream over names a value object might use for its own fields (which exposed the genuine defect C02-own-field-names)',
+    "C03-m": "the parser was only driven with identity-compared section objects and schemaless.loadConfigFile was never called by C03; added texts ending inside open sections whose own keys equal / differ from the top level's, parsed through recording contexts with value-equal, all-equal and shared section objects and through schemaless.loadConfigFile",
+    "C06-m": "the cut texts never held a lone CR (or any other splitlines / universal-newline 'line end' character) in the middle of a line; added mid-line line-end characters inside values, at the key/value blank and in comments before cutting (files written untranslated, file objects opened with LF-only line ends)",
+    "C08-n": "no fault ever made a whole nested SECTION unconvertible through its section type's datatype (the error is placed at the enclosing section's closing line); added the fault kind rejected-section and schemas nesting a checked section type in holder types",
+    "C10-m": "the default ATTRIBUTE was never written on a wildcard <key name='+'>; added the full table of default spellings x key kind x named/wildcard x required x container, with verdicts from the property's default rules and the Elab-model comparison",
+    "C11-n": 'schema-level extends was four fixed combinations, none stating a key type while inheriting a non-default or conflicting datatype; added a generated family of extends trees (1..3 bases per document, 3 deep, every document stating or inheriting key type and datatype independently) against the merged schema',
+    "C13-m": 'no component <import>-ed another component and no history %import-ed outer and inner packages in different orders and subsets on one schema object; added generated worlds of mutually importing packages with multi-load %import histories against a fresh-schema oracle, digest check and history shrinking',
+    "C15-m": 'no value (or further %define value) was in its entirety one reference to a mixed-case defined name and references inside values were never re-cased; added whole-value references and the reference-case rewrite',
+    "C15-n": "no line ended in a backslash or other 'continuation' mark and blank / comment lines were never inserted after a line or before a closer; added free-text values ending in punctuation (Windows / UNC paths) and filler lines after any item",
+    "C17-m": "no url was ever passed to schemaless.loadConfigFile, so no %include argument could resolve against a base; added a directives stream loading %include / %define texts with and without a url, with arguments in every spelling urljoin maps back to the text's own url",
+    "C18-n": "no directory or file was ever called exactly '~' or '~<login name>' and named as the first segment of a relative top-resource path; added names that are special as a whole (tilde forms, option- and pattern-like names) in every role of the relative path through all entry points",
+    "C20-n": 'no file handler was created or configured with delay and then sent a record before reopenFiles() / closeFiles(); added delay x emit to the registry sequences with a no-open-stream-after-closeFiles oracle and a configured-logfile stream {plain, size, timed} x delay checked on files and streams',
 }
 
 
